@@ -40,9 +40,10 @@ type pipe struct {
 	budget  int  // if >= 0: deliver at most this many more bytes, then rerr
 	// write stall (set by the harness on the client->server direction): after wstallAfter more bytes have been accepted,
 	// writes block until wstallUntil (a peer that stops reading: the sender's window closes), then go on
-	wstall      bool
-	wstallAfter int
-	wstallUntil time.Time
+	sinkWhenClosed bool // set by MarkDead on the client->server direction
+	wstall         bool
+	wstallAfter    int
+	wstallUntil    time.Time
 	// accounting
 	written, read int64
 	rdl, wdl      time.Time
@@ -149,6 +150,12 @@ func (p *pipe) Write(b []byte, localClosed *atomic.Bool) (int, error) {
 		if !p.wdl.IsZero() && !time.Now().Before(p.wdl) {
 			p.mu.Unlock()
 			return n, errTimeout
+		}
+		if p.rclosed && p.sinkWhenClosed {
+			// the peer is gone, but as on TCP the local write still "succeeds" (the reset arrives later): counted, discarded
+			p.written += int64(len(b) - n)
+			p.mu.Unlock()
+			return len(b), nil
 		}
 		if p.rclosed {
 			p.mu.Unlock()
@@ -385,6 +392,7 @@ func (s *ServerConn) MarkDead() {
 	if !s.p.dead.Load() {
 		s.p.writtenAtDeath.Store(s.p.c2s.written)
 		s.p.dead.Store(true)
+		s.p.c2s.sinkWhenClosed = true
 	}
 	s.p.c2s.mu.Unlock()
 }
